@@ -1,14 +1,16 @@
 (* C15 — flat-integer interface of the model for the generic OCaml driver.
 
    input  : gates nops op*         (gates = bit 0: ElasticQuotaEnableUpdateResourceKey, bit 1: ElasticQuotaGuaranteeUsage)
-     op      = kind(0 add,1 update,2 delete) name npods (label ns)* payload [payload_old when kind=1]
+     op      = kind name npods (label ns)* payload [payload_old when kind=1 or 4]
+               kind 0 add, 1 update, 2 delete: admission requests (ValidAddQuota / ValidUpdateQuota / ValidDeleteQuota)
+               kind 3 add, 4 update, 5 delete: informer deliveries (OnQuotaAdd / OnQuotaUpdate / OnQuotaDelete)
      payload = plabel isParent tree treeRoot force sw nsBad nns ns* strictBad nstrict key* vec(used) vec(min) vec(max) vec(guaranteed)
      vec     = k (key value)*
-   observable : per op   accepted(0/1) enc_topo(state after)      (Spec.enc_topo)
+   observable : per op   outcome(0 rejected, 1 admitted/handled, 2 handler panicked) enc_topo(state after)      (Spec.enc_topo)
      enc_topo = ninfos (name parent isParent force treeRoot tree min[3] max[3])*
                 nhier (key nchildren children)*  nns (ns quota)*      (-1 = dimension not declared) *)
 From Coq Require Import List ZArith Bool.
-From Verif Require Import Lib.Wire C15.Model C15.Spec.
+From Verif Require Import Lib.Wire C15.Model C15.Spec C15.Informer C15.SpecInf.
 Import ListNotations.
 Open Scope Z_scope.
 
@@ -45,27 +47,29 @@ Definition dec_payload (name : Z) (l : list Z) : quota * list Z :=
   | _ => (mkQuota name NONAME false 0 false false 0 false [] false [] [] [] [] [], [])
   end.
 
-Definition dec_op (l : list Z) : req * list Z :=
+Definition dec_op (l : list Z) : event * list Z :=
   match l with
   | kind :: name :: np :: t =>
       let '(pods, t1) := dec_pairs (Z.to_nat np) t in
       let '(q, t2) := dec_payload name t1 in
-      if kind =? 0 then ((pods, Add q), t2)
-      else if kind =? 1 then
-        let '(o, t3) := dec_payload name t2 in ((pods, Update o q), t3)
-      else ((pods, Delete q), t2)
-  | _ => (([], Delete (mkQuota ROOT NONAME false 0 false false 0 false [] false [] [] [] [] [])), [])
+      let mk := fun r : req => if kind <? 3 then EReq r else EInf r in
+      let k := if kind <? 3 then kind else kind - 3 in
+      if k =? 0 then (mk (pods, Add q), t2)
+      else if k =? 1 then
+        let '(o, t3) := dec_payload name t2 in (mk (pods, Update o q), t3)
+      else (mk (pods, Delete q), t2)
+  | _ => (EReq ([], Delete (mkQuota ROOT NONAME false 0 false false 0 false [] false [] [] [] [] [])), [])
   end.
 
-Definition decode (inp : list Z) : (bool * bool) * list req :=
+Definition decode (inp : list Z) : (bool * bool) * list event :=
   match inp with
   | g :: t => ((Z.odd g, 2 <=? g), fst (decode_seq dec_op t))
   | [] => ((false, false), [])
   end.
 
 Definition run_case (inp : list Z) : list Z :=
-  let '(g, rs) := decode inp in
-  flat_map (fun e => bz (fst e) :: enc_topo (snd e)) (trace (init_topo g) rs).
+  let '(g, es) := decode inp in
+  flat_map (fun e => fst e :: enc_topo (snd e)) (etrace (init_topo g) es).
 
 (* ---------- decoding the implementation's observable ---------- *)
 Definition dec_res (l : list Z) : reslist :=
@@ -98,29 +102,30 @@ Definition dec_topo (g : bool * bool) (l : list Z) : topo * list Z :=
   let '(bs, t3) := decode_seq dec_bind t2 in
   (mkTopo (fst g) (snd g) is hs bs, t3).
 
-Fixpoint dec_trace (g : bool * bool) (k : nat) (l : list Z) : list (bool * topo) :=
+Fixpoint dec_trace (g : bool * bool) (k : nat) (l : list Z) : list (Z * topo) :=
   match k with
   | O => []
   | S k' => match l with
-            | acc :: t => let '(s, r) := dec_topo g t in (zb acc, s) :: dec_trace g k' r
+            | out :: t => let '(s, r) := dec_topo g t in (out, s) :: dec_trace g k' r
             | [] => []
             end
   end.
 
 (* the property decided on the implementation's observable; 0 = holds *)
 Definition prop_case (inp obs : list Z) : Z :=
-  let '(g, rs) := decode inp in
+  let '(g, es) := decode inp in
   match obs with
   | [-777777] => 99
-  | _ => prop_code g rs (dec_trace g (length rs) obs)
+  | _ => eprop_code g es (dec_trace g (length es) obs)
   end.
 
 (* non-trivial: some request for a quota below a non-root parent was accepted and applied, and
    some request was rejected by a topology check (not merely "exists"/"does not exist") *)
-Fixpoint nontrivial_from (s : topo) (rs : list req) (deep rej : bool) : bool :=
-  match rs with
+Fixpoint nontrivial_from (s : topo) (es : list event) (deep rej : bool) : bool :=
+  match es with
   | [] => deep && rej
-  | r :: t =>
+  | EInf r :: t => nontrivial_from (estep s (EInf r)) t deep rej
+  | EReq r :: t =>
       let c := code s r in
       let deep' := deep || ((c =? 0) && match snd r with
                                         | Add q => negb (parent_name q =? ROOT)
@@ -136,11 +141,18 @@ Fixpoint nontrivial_from (s : topo) (rs : list req) (deep rej : bool) : bool :=
   end.
 
 Definition nontrivial_case (inp : list Z) : bool :=
-  let '(g, rs) := decode inp in nontrivial_from (init_topo g) rs false false.
+  let '(g, es) := decode inp in nontrivial_from (init_topo g) es false false.
 
-(* no known finding is open (the one of findings/C15-delete-ignores-namespace-bound-pods.md was
-   repaired by commit 4aec535; a deletion with bound pods is now clause 21, an ordinary violation) *)
-Definition finding_sig (inp obs : list Z) : Z := 0.
+(* shape 1: an update that was admitted UNCHECKED (no checked field differs) switched the
+   allow-force-update / is-root label, the implementation behaves exactly as the model, and the
+   record is no longer a well-formed tree in the min-sum clause (14) — see
+   SpecInf.flag_stable_ev and findings/C15-unchecked-flag-drop.md. Every other failure is 0.
+   (the finding of findings/C15-delete-ignores-namespace-bound-pods.md was repaired by commit
+   4aec535; a deletion with bound pods is clause 21, an ordinary violation) *)
+Definition finding_sig (inp obs : list Z) : Z :=
+  let '(g, es) := decode inp in
+  if negb (forallb flag_stable_ev es) && (prop_case inp obs =? 14) && eq_listZ (run_case inp) obs
+  then 1 else 0.
 
 Require Extraction.
 Require Import ExtrOcamlBasic.
